@@ -138,40 +138,44 @@ func runHistory(rt *rapid.T, o *historyOpts) {
 			steps++
 			a, label := w.DrawAction(rt, o.profile)
 			o.col.Class("op:" + label)
-			rec, _ := w.Apply(a)
-			if rec == nil {
-				return
-			}
-			o.col.Eval(1)
-			if rec.View == nil {
-				o.col.Class("scan:controller-build-failed")
-				return
-			}
-			vs := w.CheckAll(rec)
-			if o.extra != nil {
-				vs = append(vs, o.extra(w, rec)...)
-			}
-			judge(rt, o, w, rec, vs)
-			keys := o.classify(w, rec)
-			if len(keys) > 0 {
-				// distinct non-trivial cases are counted by the full situation of the scan, the
-				// coarse class keys only feed the histogram
-				o.col.Nontrivial(rec.SituationKey(w))
-			}
-			for _, key := range keys {
-				parts := strings.SplitN(key, "|", 3)
-				if len(parts) > 2 {
-					parts = parts[:2]
-				}
-				o.col.Class("nontrivial:" + strings.Join(parts, "|"))
-				if !nontrivialSeen {
-					nontrivialSeen = true
-					o.col.Sample(sampleOf(w, rec))
-				}
+			w.Apply(a)
+			for _, rec := range w.DrainRecs() {
+				judgeScan(rt, o, w, rec, &nontrivialSeen)
 			}
 		}
 		rt.Repeat(map[string]func(*rapid.T){"step": step})
 	})
+}
+
+// judgeScan runs every monitor on one scan and records its classes.
+func judgeScan(rt *rapid.T, o *historyOpts, w *world.World, rec *world.ScanRecord, nontrivialSeen *bool) {
+	o.col.Eval(1)
+	if rec.View == nil {
+		o.col.Class("scan:controller-build-failed")
+		return
+	}
+	vs := w.CheckAll(rec)
+	if o.extra != nil {
+		vs = append(vs, o.extra(w, rec)...)
+	}
+	judge(rt, o, w, rec, vs)
+	keys := o.classify(w, rec)
+	if len(keys) > 0 {
+		// distinct non-trivial cases are counted by the full situation of the scan, the
+		// coarse class keys only feed the histogram
+		o.col.Nontrivial(rec.SituationKey(w))
+	}
+	for _, key := range keys {
+		parts := strings.SplitN(key, "|", 3)
+		if len(parts) > 2 {
+			parts = parts[:2]
+		}
+		o.col.Class("nontrivial:" + strings.Join(parts, "|"))
+		if !*nontrivialSeen {
+			*nontrivialSeen = true
+			o.col.Sample(sampleOf(w, rec))
+		}
+	}
 }
 
 func historyCheck(t *testing.T, o *historyOpts) {
